@@ -155,12 +155,9 @@ impl InitHeader {
 
         let (payload_len_bytes, data) = data.split_at(2);
 
-        let payload_len = u16::from_be_bytes(payload_len_bytes.try_into().unwrap()).into();
-        let data = if payload_len > Self::MAX_PAYLOAD_SIZE {
-            data
-        } else {
-            &data[..payload_len]
-        };
+        let payload_len: usize = u16::from_be_bytes(payload_len_bytes.try_into().unwrap()).into();
+        // Never take more than what was declared, fits in a packet and was actually received.
+        let data = &data[..payload_len.min(Self::MAX_PAYLOAD_SIZE).min(data.len())];
         Ok((
             Self {
                 channel,
@@ -427,13 +424,10 @@ impl Message {
             self.sequence += 1;
             let remaining_bytes = self.payload_len - self.payload.len();
             const MAX_CONT_PACKET_LEN: usize = MAX_PACKET_SIZE - ContHeader::HEADER_SIZE;
-            if remaining_bytes <= MAX_CONT_PACKET_LEN {
-                self.payload.extend_from_slice(&data[..remaining_bytes]);
-                Ok(true)
-            } else {
-                self.payload.extend_from_slice(data);
-                Ok(false)
-            }
+            // Never take more than what is missing, fits in a packet and was actually received.
+            let data = &data[..remaining_bytes.min(MAX_CONT_PACKET_LEN).min(data.len())];
+            self.payload.extend_from_slice(data);
+            Ok(self.is_complete())
         } else {
             Err(ExtensionError::OutOfSequence)
         }
